@@ -487,6 +487,14 @@ class Interp:
     def binop(self, st, op, a, b, inst):
         w = inst.d['bits']
         if isinstance(a, Ptr) or isinstance(b, Ptr):
+            if op == 'sub' and isinstance(a, Ptr) and isinstance(b, Ptr) and a.obj == b.obj and a.parts and b.coff() is not None and not (b.parts and b.parts[1]):
+                # &obj.member[idx] - &obj.member[0]: the constant parts cancel exactly, the scaled indices remain
+                r = BV.const((a.parts[0] - b.coff()) & ((1 << 64) - 1), 64).bits
+                fake = type('I', (), {'d': {'bits': 64}, 'loc': inst.loc})()
+                for idx_, stride_ in a.parts[1]:
+                    ib = idx_.bits + [idx_.bits[-1]] * (64 - len(idx_.bits))
+                    r = self.add(r, self.binop(st, 'mul', BV(ib[:64]), BV.const(stride_, 64), fake).bits)
+                return BV(r)
             if op == 'sub' and isinstance(a, Ptr) and isinstance(b, Ptr) and a.obj == b.obj:
                 return BV(self.add(a.off.bits, [bnot(x) for x in b.off.bits], 1))
             if op == 'sub' and isinstance(a, Ptr) and isinstance(b, Ptr):
